@@ -30,7 +30,7 @@ TAP = {'events': []}
 
 
 def gates(tier):
-    return {'numbered_only_cases': 300, 'grader_calls': 5000, 'expected_correct': 1200, 'expected_incorrect': 1500,
+    return {'numbered_only_cases': 300, 'constant_shadowing_cases': 300, 'dependent_chain_cases': 100, 'grader_calls': 5000, 'expected_correct': 1200, 'expected_incorrect': 1500,
             'partial_failure_patterns': 600, 'boundary_exact_cases': 200, 'tap_events': 15000,
             'tap_percent_events': 3000, 'array_cases': 800, 'inf_cases': 40, 'rewrite_cases': 300,
             'relative_operand_discriminating': 40, 'norm_discriminating': 24}
@@ -296,6 +296,15 @@ def run_branches(ctx):
         es = [fe[ans](x, y) for x, y in zip(xs, ys)]
         ss = [fe[student](x, y) for x, y in zip(xs, ys)]
         tolerance = rng.choice([0, 1e-9, 0.01, '0.01%', '5%'])
+        if i % 5 == 1:
+            # sampled variables that shadow default constants (allowed with suppress_warnings): they vary from sample to sample
+            ctx.count('constant_shadowing_cases')
+            ren = lambda f: f.replace('x', 'e').replace('y', 'pi')
+            run_case(ctx, rng.choice(['FormulaGrader', 'MatrixGrader']), ren(ans), ren(student), xs, ys, es, ss, tolerance, failable,
+                     rng.choice([1, 0.5]), {'family': 'branch', 'negative_samples': k, 'variables': 'named e and pi'},
+                     extra_cfg={'variables': ['e', 'pi'], 'suppress_warnings': True,
+                                'sample_from': {'e': lib.Scripted(values=list(xs)), 'pi': lib.Scripted(values=list(ys))}})
+            continue
         if i % 5 == 0 and 'y' not in ans:
             # the only sampled quantity is an instance of a numbered variable (no plain variables at all)
             ctx.count('numbered_only_cases')
@@ -328,6 +337,18 @@ def run_rewrites(ctx):
             tolerance = rng.choice([1e-7, '0.0001%', '0.01%', 0.01])
         es = [fe[ans](x, y) for x, y in zip(xs, ys)]
         ctx.count('rewrite_cases')
+        if i % 6 == 5 and ans in ('x*y+2', 'x^2+1', '3*x-y'):
+            # the author's answer reaches the same value through a chain of dependent variables declared in arbitrary order
+            from mitxgraders import DependentSampler
+            inner = {'x*y+2': 'x*y', 'x^2+1': 'x^2', '3*x-y': '3*x'}[ans]
+            outer = {'x*y+2': 'v+2', 'x^2+1': 'v+1', '3*x-y': 'v-y'}[ans]
+            order = rng.sample(['w', 'v', 'x', 'y'], 4)
+            ctx.count('dependent_chain_cases')
+            run_case(ctx, rng.choice(['FormulaGrader', 'MatrixGrader']), 'w', rng.choice([ans, student, 'w+0*v']), xs, ys, es, list(es), tolerance,
+                     rng.randint(0, 2), rng.choice([1, 0.5]), {'family': 'rewrite', 'dependent_chain': {'v': inner, 'w': outer}, 'declaration_order': order},
+                     exact=True, extra_cfg={'variables': order, 'sample_from': {'x': lib.Scripted(values=list(xs)), 'y': lib.Scripted(values=list(ys)),
+                                                                                'v': DependentSampler(formula=inner), 'w': DependentSampler(formula=outer)}})
+            continue
         run_case(ctx, rng.choice(['FormulaGrader', 'MatrixGrader']), ans, student, xs, ys, es, list(es), tolerance,
                  rng.randint(0, 2), rng.choice([1, 0.5]), {'family': 'rewrite'}, exact=True)
 
